@@ -44,16 +44,16 @@ Definition clean_machine (v : vm) : Prop :=
 
 Lemma reset_clean v :
   (exists m, assoc_get (v_mems (match assoc_get (v_ctxs v) 0 with
-                                | Some c => fold_left (fun acc ch => delete_ctx 1000 acc (snd ch)) (c_children c) v
+                                | Some c => fold_left (fun acc ch => delete_ctx ctx_fuel acc (snd ch)) (c_children c) v
                                 | None => v end)) 0 = Some m) ->
   (exists c, assoc_get (v_ctxs (match assoc_get (v_ctxs v) 0 with
-                                | Some c => fold_left (fun acc ch => delete_ctx 1000 acc (snd ch)) (c_children c) v
+                                | Some c => fold_left (fun acc ch => delete_ctx ctx_fuel acc (snd ch)) (c_children c) v
                                 | None => v end)) 0 = Some c) ->
   clean_machine (reset_after_error v).
 Proof.
   intros [m Hm] [c Hc]. unfold reset_after_error.
   set (v1 := match assoc_get (v_ctxs v) 0 with
-             | Some c0 => fold_left (fun acc ch => delete_ctx 1000 acc (snd ch)) (c_children c0) v
+             | Some c0 => fold_left (fun acc ch => delete_ctx ctx_fuel acc (snd ch)) (c_children c0) v
              | None => v end) in *.
   rewrite Hm. cbn [set_mem v_ctxs]. rewrite Hc.
   exists (mReset m). eexists. cbn [set_ctx set_mem v_mems v_ctxs v_ncs].
